@@ -5,9 +5,13 @@ import SamplyModel.Model.SvmaBias
 Line protocol shared by the perf.data-driven properties (C01, C17, C02, C14).
 
 ops (all numbers decimal, names/paths hex-encoded ASCII):
-  cfg <reuse 0|1> <fold 0|1> <ref> [elf:<pathhex>:<baseSvma>:<svma>,<fileOff>,<size>;…]*
+  cfg <reuse 0|1> <fold 0|1> <ref> [elf:<pathhex>:<baseSvma>:<svma>,<fileOff>,<size>;…]* [percpu:<ncpu>]
       (an `elf:` word declares that the file at that path exists on disk, with the image base and the LOAD
-       segments the converter will read from it: MMAP2 records naming it are attributed segment-based)
+       segments the converter will read from it: MMAP2 records naming it are attributed segment-based;
+       `percpu:<n>` = `--per-cpu-threads`, the sample at raw time t is on CPU t mod n)
+  perfmap <pid> <addr> <len> <namehex>     one line `<addr hex> <len hex> <name>` of /tmp/perf-<pid>.map
+  perfmapraw <pid> <linehex>               one line of /tmp/perf-<pid>.map, verbatim (malformed lines, `0x`, …)
+      (file order = op order; a pid with at least one such op has a file)
   sample <pid> <tid> <t> <k|u> <period> <ip> <chain: comma separated | ->
   fork <pid> <tid> <ppid> <ptid> <t>
   exit <pid> <tid> <t>
@@ -35,6 +39,34 @@ def parseRec (l : String) : Option Rec :=
   | ["comm", pid, tid, ex, t, name] => some (.comm (nat! pid) (nat! tid) (strOfHex name) (ex == "1") (nat! t))
   | ["mmap2", pid, tid, addr, len, pgoff, ex, t, path] =>
     some (.mmap2 (nat! pid) (nat! tid) (nat! addr) (nat! len) (nat! pgoff) (ex == "1") (strOfHex path) (nat! t))
+  | _ => none
+
+/-- a perf-map op: (pid, text of the line) -/
+def parsePmOp (l : String) : Option (Nat × List Char) :=
+  match words l with
+  | ["perfmap", pid, addr, len, name] =>
+    some (nat! pid, Nat.toDigits 16 (nat! addr) ++ [' '] ++ Nat.toDigits 16 (nat! len) ++ [' '] ++ (strOfHex name).toList)
+  | ["perfmapraw", pid, line] => some (nat! pid, (strOfHex line).toList)
+  | _ => none
+
+def isPmOp (l : String) : Bool :=
+  match words l with
+  | "perfmap" :: _ => true
+  | "perfmapraw" :: _ => true
+  | _ => false
+
+/-- group the lines by pid, keeping the order of the lines and of the first mention of each pid -/
+def groupPm : List (Nat × List Char) → List (Nat × List (List Char))
+  | [] => []
+  | (pid, l) :: rest =>
+    let g := groupPm rest
+    match g.find? (fun e => e.1 == pid) with
+    | some e => (pid, l :: e.2) :: g.filter (fun e => !(e.1 == pid))
+    | none => (pid, [l]) :: g
+
+def parsePercpu (w : String) : Option Nat :=
+  match w.splitOn ":" with
+  | ["percpu", n] => some (nat! n)
   | _ => none
 
 def parseElf (w : String) : Option (String × SvmaBias.FileInfo) :=
@@ -67,10 +99,12 @@ def parse (ls : List String) : Option (Config × List Rec) :=
     match words l with
     | "cfg" :: reuse :: fold :: ref :: elfs =>
       let files := elfs.filterMap parseElf
-      match rest.mapM parseRec with
+      let ncpu := ((elfs.filterMap parsePercpu).head?).getD 0
+      let pm := groupPm (rest.filterMap parsePmOp)
+      match (rest.filter (fun l => !isPmOp l)).mapM parseRec with
       | some rs =>
         match rs.mapM (applyFiles files) with
-        | some rs' => some ({ reuse := reuse == "1", fold := fold == "1", ref := nat! ref }, rs')
+        | some rs' => some ({ reuse := reuse == "1", fold := fold == "1", ref := nat! ref, perfMaps := pm, ncpu }, rs')
         | none => none
       | none => none
     | _ => none
@@ -83,6 +117,8 @@ def showFrame : Frame → String
   | .lib p r => "l:" ++ hexOfStr p ++ ":" ++ toString r
   | .raw a => "r:" ++ toString a
   | .elided c => "e:" ++ toString c
+  | .label n => "j:" ++ hexOfStr n
+  | .tlabel n => "x:" ++ hexOfStr n
 
 def showFrames (fs : List Frame) : String :=
   if fs.isEmpty then "-" else " ".intercalate (fs.map showFrame)
@@ -127,6 +163,8 @@ def model (proj : Proj) (ls : List String) : List String :=
   | none => ["bad-op"]
   | some (cfg, rs) =>
     if rs.any (fun r => !recSafe r) then ["panic"] else
-    render proj (views (run cfg rs))
+    let s := run cfg rs
+    if !perfMapsSafe s then ["panic"] else
+    render proj (views s ++ cpuViews s)
 
 end ConvIface
